@@ -44,6 +44,16 @@ func (m *Module) classIdentifierProcessing(
 	ctx.StartDefineStatic()
 	defer ctx.EndDefineStatic()
 
+	// `class << self` is a scope of its own: it starts public, and the section that was
+	// open around it continues after its `end`
+	outerPrivate, outerProtected := ctx.IsPrivate, ctx.IsProtected
+	ctx.EndPrivate()
+	ctx.EndProtected()
+
+	defer func() {
+		ctx.IsPrivate, ctx.IsProtected = outerPrivate, outerProtected
+	}()
+
 	for {
 		nextT, err := p.Read()
 		if err != nil {
